@@ -1,10 +1,54 @@
 """Reviewed-safe panic sites for C15: one entry per (function, kind, detail)
 with the number of sites covered and the local reason the site is infeasible
 or not driven by untrusted input. An extra site in a listed function is still
-reported."""
+reported (the count is exact), and a listed function that disappears simply
+stops matching."""
+
+FS_LOG = "<sos_filesystem::event_log::FileSystemEventLog<T, E> as sos_core::events::event_log::EventLog<T>>::"
+STREAM = "sos_filesystem::formats::stream::FormatStream::<T, R>::"
 
 # (function root path, kind, detail, count, reason)
 _TABLE = [
+    ("<sos_core::account::AccountId as core::str::traits::FromStr>::from_str", "may-panic", "index:index", 1,
+     "`&s[2..]` runs only after `s.starts_with(\"0x\")`: length >= 2 and offset 2 is a char boundary (ASCII prefix)"),
+    (FS_LOG + "diff_records", "may-panic", "vec-position:insert", 1,
+     "`events.insert(0, _)`: index 0 is valid for every Vec"),
+    (FS_LOG + "rewind", "assert", "Overflow:Sub:usize", 1,
+     "`leaves.len() - records.len()` is inside `if leaves.len() > records.len()`"),
+    (FS_LOG + "rewind", "assert", "Overflow:Sub:u64", 1,
+     "`length -= byte_length` is inside `if byte_length < length`"),
+    ("sos_archive::reader::Reader::<R>::by_name", "unwrap", "unwrap", 1,
+     "`entries().get(index).unwrap()` with index ranging over `0..entries().len()` of the same collection"),
+    ("sos_core::file_identity::FileIdentity::read_slice", "assert", "BoundsCheck", 1,
+     "`buffer[index]` with index < identity.len() inside `if buffer.len() >= identity.len()`"),
+    ("sos_core::file_identity::format_identity_bytes", "unwrap", "expect", 1,
+     "the argument is the expected magic (a compile-time ASCII constant), never bytes read from the file"),
+    ("sos_filesystem::event_log::FileSystemEventLog::<T, E>::header_len", "assert", "DivisionByZero", 1,
+     "`u16::BITS / 8`: constant non-zero divisor"),
+    ("sos_filesystem::event_log::FileSystemEventLog::<T, E>::header_len", "assert", "Overflow:Add:usize", 1,
+     "identity length (4) + 2: constants"),
+    ("sos_filesystem::event_log::read_event_buffer", "assert", "Overflow:Sub:u64", 1,
+     "`value.end - value.start`: the range is built by FormatStream::read_row as `begin..begin+len` or `start+4..end-4` with end >= start+8"),
+    ("sos_filesystem::formats::file_identity::read_file_identity_bytes", "assert", "BoundsCheck", 1,
+     "`buffer[index]` on a [u8; 4] with index < identity.len(); every identity constant is 4 bytes and the file length was checked"),
+    ("sos_filesystem::formats::records::EventLogRecord::byte_length", "assert", "Overflow:Sub:u64", 1,
+     "inside `if self.offset.end >= self.offset.start`"),
+    (STREAM + "read_row", "assert", "Overflow:Add:u64", 2,
+     "u64 stream position + u32 length / + 4: cannot exceed u64 for a file-sized position"),
+    (STREAM + "read_row", "assert", "Overflow:Sub:u64", 1,
+     "`offset.end - 4` where offset.end = row_pos + row_len + 8 >= 8"),
+    (STREAM + "read_row_next", "assert", "Overflow:Add:u64", 2,
+     "`row_pos + (row_len as u64 + 8)`: u64 file position + u32 length + 8"),
+    (STREAM + "read_row_next", "unwrap", "unwrap", 1,
+     "`self.forward.unwrap()`: next_forward assigns Some(offset) immediately before calling"),
+    (STREAM + "read_row_next_back", "assert", "Overflow:Add:u64", 4,
+     "u32 length + 8, row_start + that, row_start + 4: row_start was bounds-checked by checked_sub/filter just above"),
+    (STREAM + "read_row_next_back", "assert", "Overflow:Sub:u64", 2,
+     "`row_pos - 4`: next_back only calls with backward > header_offset >= 4 (identity bytes)"),
+    (STREAM + "read_row_next_back", "unwrap", "unwrap", 1,
+     "`self.backward.unwrap()`: next_back assigns Some(len) immediately before calling"),
+    ("sos_vault::encoding::secret::<impl binary_stream::futures::Decodable for sos_vault::secret::Secret>::decode", "may-panic", "vec-position:remove", 1,
+     "`cards.remove(0)` after vcard4::parse, which returns Err (not an empty list) when no card is present (vcard4 0.7.2, checked); input is AEAD-decrypted plaintext"),
 ]
 
 
